@@ -3,7 +3,7 @@ implementation runs (impl_engine.py), rendering of cases for the Coq model (Engi
 model-vs-implementation comparison inside Coq, shrinking, and an independent re-statement of the
 specificity tuple.
 
-Fragment the generators stay in (so that the model is exact): ASCII text; amounts are dyadic (ticks of 1/64);
+Fragment the generators stay in (so that the model is exact): ASCII text; amounts are dyadic (integer ticks of 1/512);
 no date-relative modifiers; no non-ASCII white space."""
 import concurrent.futures
 import json
@@ -12,6 +12,7 @@ import re
 
 from common import *
 
+TICK = 512       # amounts are integer ticks of 1/512 (same constant in impl_engine.py and Engine/Model.v)
 IMPL = os.path.join(os.path.dirname(os.path.abspath(__file__)), 'impl_engine.py')
 ENGINE_COQ = ['Lib/Str.v', 'Engine/StrLib.v', 'Gen/C09Specificity.v', 'Gen/C01IsExpr.v', 'Engine/Model.v', 'Engine/Lemmas.v']
 
@@ -121,10 +122,13 @@ def gen_rule(rnd, i, var_names, tag_only_p=0.4):
     env = list(var_names)
     for j in range(rnd.choice([0, 0, 0, 1, 2])):
         nm = f'v{j}'
-        lets.append((nm, rnd.choice([gen_cond(rnd, env, 1), 'extract("(\\\\d+)")', 'nosuchvar', 'amount * 2'])))
+        lets.append((nm, rnd.choice([gen_cond(rnd, env, 1), 'extract("(\\\\d+)")', 'nosuchvar', 'amount * 2', 'field.memo', 'field.code',
+                                     'extract(field.memo, "REF (\\\\w+)")', 'source', '"lit" + source', 'split(" ", 1)'])))
         env.append(rnd.choice([nm, f'{nm} != ""', f'{nm} == "123"']))
     r = {'name': f'R{i} {word(rnd).title()}' if rnd.random() < 0.5 else f'R{i}', 'match': gen_cond(rnd, env, 3 if rnd.random() < 0.3 else 1),
          'category': '', 'subcategory': '', 'merchant': '', 'tags': gen_tags(rnd), 'priority': None, 'lets': lets, 'fields': []}
+    if lets and rnd.random() < 0.5:          # a dynamic tag over this rule's own let binding
+        r['tags'].append('{' + rnd.choice(lets)[0] + '}')
     if rnd.random() >= tag_only_p:
         r['category'] = rnd.choice(CATS)
     if rnd.random() < (0.5 if r['category'] else 0.25):
@@ -212,8 +216,9 @@ def gen_desc(rnd, words=None):
 
 def gen_txn(rnd, words=None):
     c = rnd.choice(AMOUNT_CONSTS)
-    base = int(float(c) * 64)
-    a = rnd.choice([base, base + 1, base - 1, -base, base * 2, rnd.randint(-20000, 20000)])
+    base = int(float(c) * TICK)
+    a = rnd.choice([base, base + 8, base - 8, -base, base * 2, rnd.randint(-2500, 2500) * 64,
+                    base + rnd.choice([1, 2, 3, 4, 5, 6, -1, -2, -3, -4, -5, -6])])      # incl. sub-cent distances from a constant
     if rnd.random() < 0.06:
         a = None
     dt = rnd.choice(DATE_CONSTS + ['2025-01-14', '2025-01-16', '2025-03-02', '2025-02-28', '2025-04-01', '2025-01-13', None])
@@ -275,8 +280,9 @@ def gen_csv_pattern(rnd):
 def gen_csv_file(rnd, nrules=None):
     n = nrules or rnd.choice([1, 2, 3, 3, 4, 5, 6, 8])
     rows = []
+    all_cat = rnd.random() < 0.4        # files without any tag-only row (every matching row both categorizes and tags)
     for i in range(n):
-        cat = rnd.choice(CATS) if rnd.random() < 0.65 else ''
+        cat = rnd.choice(CATS) if (all_cat or rnd.random() < 0.65) else ''
         tags = []
         for _ in range(rnd.choice([0, 1, 1, 2])):
             tags.append(rnd.choice(STATIC_TAGS + ['{field.memo}', '{source}', '{nosuchvar}', '{regex_replace(description, "(", "")}',
@@ -815,7 +821,7 @@ def expected_tags(jr, tr):
 def legacy_direct(jr, t, tr):
     """C01's reading of a legacy row's condition, evaluated in the harness (not by the code under test): the regex finds
     a match in the upper-cased description (re.search result reported by the runner) AND every modifier holds — amounts
-    compared exactly (ticks), date ranges inclusive, month equality; a missing amount/date fails the modifier."""
+    compared exactly (ticks of 1/512; [amount=N] = within less than 0.01 of N), date ranges inclusive, month equality; a missing amount/date fails the modifier."""
     out = []
     for r, s in zip(jr['rules'], tr['search']):
         ok = s == 'Y'
@@ -827,7 +833,7 @@ def legacy_direct(jr, t, tr):
                     break
                 op, v = c[0], c[1:]
                 ok = ok and {'>': lambda: a > v[0], '>=': lambda: a >= v[0], '<': lambda: a < v[0], '<=': lambda: a <= v[0],
-                             '=': lambda: abs(a - v[0]) < 0.64, ':': lambda: v[0] <= a <= v[1]}[op]()
+                             '=': lambda: abs(a - v[0]) * 100 < TICK, ':': lambda: v[0] <= a <= v[1]}[op]()   # '=': within less than one cent
             for c in r['dconds']:
                 if d is None:
                     ok = False
